@@ -920,7 +920,8 @@ func TestC15Decode(t *testing.T) {
 			defer wg.Done()
 			for i := range queue {
 				r := results[i]
-				r.runChildren(bin, filepath.Join(work, fmt.Sprintf("ep%03d", i)), seedsPath, 120*time.Second, 30)
+				// a process-fatal input costs one child; allow for an entry point whose listed defect kills a few per cent of the inputs
+				r.runChildren(bin, filepath.Join(work, fmt.Sprintf("ep%03d", i)), seedsPath, 120*time.Second, 30+perEntry/20)
 				r.nCases = len(r.cases)
 				if len(r.cases) > 3 {
 					c := r.cases[len(r.cases)/2]
@@ -938,6 +939,7 @@ func TestC15Decode(t *testing.T) {
 	bySig := map[string]*finding{}
 	reached := 0
 	var wallTop, neverDecoded []string
+	var abortedEPs []*epResult
 	totalChildren := 0
 	for _, r := range results {
 		totalChildren += r.children
@@ -963,7 +965,7 @@ func TestC15Decode(t *testing.T) {
 			neverDecoded = append(neverDecoded, r.e.name)
 		}
 		if r.aborted != "" {
-			m.Inconclusive(fmt.Sprintf("entry point %s: %s", r.e.name, r.aborted))
+			abortedEPs = append(abortedEPs, r)
 		}
 		if len(r.timeouts) > 0 {
 			m.AddExtra("timeouts", int64(len(r.timeouts)))
@@ -1014,6 +1016,21 @@ func TestC15Decode(t *testing.T) {
 					}
 				}
 			}
+		}
+	}
+	for _, r := range abortedEPs {
+		// an entry point abandoned after many child deaths is inconclusive unless every death there is a listed
+		// finding (then the rest of its inputs is simply unexplored, which the evidence records)
+		allKnown := r.deaths > 0 && strings.HasPrefix(r.aborted, "stopped after")
+		for sig := range r.findings {
+			if !known[sig] {
+				allKnown = false
+			}
+		}
+		if allKnown {
+			m.Extra("partially_explored:"+r.e.name, r.aborted+" (all of them listed findings)")
+		} else {
+			m.Inconclusive(fmt.Sprintf("entry point %s: %s", r.e.name, r.aborted))
 		}
 	}
 	sort.SliceStable(all, func(i, j int) bool {
